@@ -9,7 +9,7 @@ from vf.xh import Ob
 PREAMBLE = '''\
 import sys
 from vf import skel as _sk
-from checks.C10 import tree_ok, HEADS, POOL
+from checks.C10 import tree_ok, tree_ok2, HEADS, POOL
 '''
 
 POOL_TEXT = [
@@ -17,6 +17,14 @@ POOL_TEXT = [
     "#* x", "#** x", "#^ int x", "(else)", "(except [])", "(x)", "[x y z]", "(setv q 1)", "f\"{x}\"", "-1.5", "'x", "`(~x)", "(fn [] x)",
     "(. x y)", "[[x]]", "(finally)", "#(x 1)", "x.y", ".x", "(:k x)", "[#* x]", "(if x 1 2)", "(do)",
 ]
+
+
+# forms that produce statements or are unusual as operands: tried in every argument position of every head
+SPOOL_TEXT = [
+    "(if x (do (f) 1) 2)", "(do)", "[x y]", "f\"{(do)}\"", "\"None\"", "(| 1)", "(lfor x (do) x)", "(try (f) (except [E] 1))",
+    "#(x (get y 0))", "(match x 1 2)", "(setv y (do))", "[x #* y]", "(with [a b] c)", "{\"k\" (do)}", "(while x (break))", "(. x [0])", "(quote)", "(fn [x])", "(await x)",
+]
+SPOOL = None
 
 
 def heads():
@@ -39,6 +47,11 @@ def _init():
 
         HEADS = heads()
         POOL = [list(hy.read_many(t))[0] for t in POOL_TEXT]
+    global SPOOL
+    if SPOOL is None:
+        import hy
+
+        SPOOL = [list(hy.read_many(t))[0] for t in SPOOL_TEXT]
 
 
 def pick(seq, i):
@@ -125,6 +138,44 @@ def tree_ok(hi, n, a0, a1, a2, a3=0, why=None):
     return ok
 
 
+def tree_ok2(hi, mode, a, si, s2, why=None):
+    """(head A S) / (head S A) / (head S S') / (head A S T) with S, S' from the statement pool, A from the atom pool, T in {x, 1, (do)}"""
+    import copy
+
+    import hy
+    from vf import skel
+
+    _init()
+    if why is None and skel.EXPLAIN[0]:
+        del skel.LAST_WHY[:]
+        why = skel.LAST_WHY
+    head = pick(HEADS, hi)
+    A = pick(POOL, a)
+    S = pick(SPOOL, si)
+    S2 = pick(SPOOL, s2)
+    T = pick([POOL[0], POOL[10], SPOOL[2]], s2)
+    args = [A, S]
+    if mode == 1:
+        args = [S, A]
+    elif mode == 2:
+        args = [S, S2]
+    elif mode == 3:
+        args = [A, S, T]
+    elif mode == 4:
+        args = [S]
+    tree = hy.models.Expression([hy.models.Symbol(hy.unmangle(head))] + [copy.deepcopy(x) for x in args])
+    from crosshair.tracers import NoTracing, is_tracing
+
+    if is_tracing():
+        with NoTracing():
+            ok, desc = classify(tree)
+    else:
+        ok, desc = classify(tree)
+    if not ok and why is not None:
+        why.append("%s -> %s" % (hy.repr(tree), desc))
+    return ok
+
+
 def finding_key(ob, rec):
     return "%s :: %s" % (ob.sample if ob else rec.get("sample"), rec.get("replay_detail"))
 
@@ -144,7 +195,24 @@ def spec(tier, seed):
              "    b2 = _sk.box(a2, 0, %d) if k >= 3 else 0" % ((6 if tier == "quick" else 12) - 1),
              "    return tree_ok(%d, k, b0, b1, b2)" % hi]
         obs.append(Ob(fn, "\n".join(L), sample="(%s ARGS...) with 0..%d arguments from the atom pool" % (h, 2 if tier == "quick" else 3), group="head"))
-    # nested: each head as the argument of `do`, `setv x`, and a call, with one argument
+    nsp = len(SPOOL_TEXT) if tier == "thorough" else 8
+    # quick: A in {x, True} for (h A S), A = x for (h S A) and (h A S T), no (h S S'); thorough: the whole boxes
+    for hi, h in enumerate(HEADS):
+        fn = "g%d" % hi
+        L = ["def %s(mode: int, a: int, s: int, s2: int) -> bool:" % fn, '    """', "    post: _", '    """']
+        if tier == "thorough":
+            L += ["    m = _sk.box(mode, 0, 4)",
+                  "    b = _sk.box(a, 0, %d) if m in (0, 1, 3) else 0" % (npool - 1),
+                  "    c = _sk.box(s, 0, %d)" % (nsp - 1),
+                  "    d = (_sk.box(s2, 0, %d) if m == 2 else (_sk.box(s2, 0, 2) if m == 3 else 0))" % (nsp - 1)]
+        else:
+            L += ["    m = (0, 1, 3, 4)[_sk.box(mode, 0, 3)]",
+                  "    b = (0, 2)[_sk.box(a, 0, 1)] if m == 0 else 0",
+                  "    c = _sk.box(s, 0, %d)" % (nsp - 1),
+                  "    d = _sk.box(s2, 0, 2) if m == 3 else 0"]
+        L += ["    return tree_ok2(%d, m, b, c, d)" % hi]
+        obs.append(Ob(fn, "\n".join(L), sample="(%s A S) / (%s S A) / (%s S S') / (%s A S T) / (%s S): S, S' from the statement pool %r, A from the atom pool, T in x, 1, (do)" % (
+            h, h, h, h, h, SPOOL_TEXT[:nsp]), group="head-stmt", timeout=3000.0 if tier == "thorough" else None))
     tw = "\n".join(["def twin0(n: int, a0: int) -> bool:", '    """', "    post: _", '    """', "    tree_ok(0, _sk.box(n, 0, 1), _sk.box(a0, 0, 2), 0, 0)", "    return False"])
     obs.append(Ob("twin0", tw, twin=True, group="twin"))
     return {
@@ -157,8 +225,9 @@ def spec(tier, seed):
         "grade": "D (degenerate: the solver only enumerates the selector box; compile step runs under NoTracing)",
         "functions_encoded": ["hy.compiler.hy_compile / HyASTCompiler.compile_expression", "every pattern_macro in hy.core.result_macros and core macro in hy.core.macros (heads read from builtins._hy_macros at run time: %d)" % len(HEADS),
                               "hy.model_patterns", "hy.macros.macroexpand", "CPython compile() and marshal as the validity oracle"],
-        "bounds": "head = every core macro (%d); 0..%d arguments, the first two from the first %d atoms of the pool %r, the third from the first %d" % (
-            len(HEADS), 2 if tier == "quick" else 3, npool, POOL_TEXT, 6 if tier == "quick" else 12),
+        "bounds": "head = every core macro (%d); 0..%d arguments, the first two from the first %d atoms of the pool %r, the third from the first %d; plus, per head, the shapes "
+                  "(h A S), (h S A), (h S S'), (h A S T), (h S) with S, S' from the %d statement-producing / unusual operands %r (quick tier: the first 8 operands, A in {x, True} resp. x, no (h S S'))" % (
+            len(HEADS), 2 if tier == "quick" else 3, npool, POOL_TEXT, 6 if tier == "quick" else 12, len(SPOOL_TEXT), SPOOL_TEXT),
         "outside": "deeper nesting (property text: depth 5); more than 3 arguments; atoms outside the pool; reader macros",
         "stubs": ["the compile of each decoded tree runs under crosshair.tracers.NoTracing (nothing symbolic enters it)"],
         "assumptions": ["user-facing = HyLanguageError subclasses and SyntaxError (incl. CPython's own SyntaxError from compile()); RecursionError is not counted"],
